@@ -588,6 +588,13 @@ def b_subsampling(S):
         {"chosen": "List (String → Cell)", "columns": "List String", "default_aggregator": "String"}, "AList String R", C, types=T,
         extra_params=[("{Cell}", "Type"), ("{R}", "Type"), ("agg", "String → List Cell → List Cell → Option R"), ("fallback", "List Cell → R")],
         slice_from="area_values =", default_num="Nat")
+    # the step between subsample_networks and the grouping: failed samples (None) and non-dict results are discarded, nothing else
+    out += "\n" + translate_function(
+        S[SUBS], "gather_subsample_descriptions", "gather_subsample_descriptions",
+        {"subsample_results": "List D"}, "List D",
+        {"random_sample_description is None": "(is_none random_sample_description)", "not isinstance(random_sample_description, dict)": "(!(is_dict random_sample_description))"},
+        types={"random_sample_description is None": "Bool", "not isinstance(random_sample_description, dict)": "Bool", "descriptions": "List D", "n_results": "Nat", "n_actual_results": "Nat"},
+        extra_params=[("{D}", "Type"), ("is_none", "D → Bool"), ("is_dict", "D → Bool")], default_num="Nat")
     return out
 
 
@@ -1968,6 +1975,57 @@ def b_windows(S):
     return out
 
 
+def b_error_column(S):
+    """`Validation.ERROR_COLUMN` and the name under which a Shapefile (dBase field names keep 10 characters) carries it, `ERROR_COLUMN_TRUNC`;
+    run_validation drops both from the input before validating. Strings are lists of characters."""
+    tree = ast.parse(S[TVAL])
+    asg = [n for n in ast.walk(tree) if isinstance(n, ast.Assign) and len(n.targets) == 1 and ast.unparse(n.targets[0]) == "self.ERROR_COLUMN_TRUNC"]
+    if len(asg) != 1:
+        raise Untranslatable("assignment of self.ERROR_COLUMN_TRUNC not found (exactly once)")
+    consts = [n for n in ast.walk(tree) if isinstance(n, ast.AnnAssign) and ast.unparse(n.target) == "ERROR_COLUMN" and isinstance(n.value, ast.Constant) and isinstance(n.value.value, str)]
+    if len(consts) != 1:
+        raise Untranslatable("class attribute ERROR_COLUMN: str = <literal> not found")
+    name = consts[0].value.value
+    if not name.isascii() or '"' in name or "\\" in name:
+        raise Untranslatable("ERROR_COLUMN literal is not plain ASCII")
+
+    def num(e):
+        if isinstance(e, ast.Constant) and isinstance(e.value, int) and not isinstance(e.value, bool) and e.value >= 0:
+            return str(e.value)
+        if isinstance(e, ast.Call) and ast.unparse(e.func) == "len" and len(e.args) == 1:
+            return f"({val(e.args[0])}).length"
+        raise Untranslatable(f"unsupported index expression {ast.unparse(e)} (negative or computed bounds)")
+
+    def cond(e):
+        ops = {ast.Gt: ">", ast.GtE: "≥", ast.Lt: "<", ast.LtE: "≤", ast.Eq: "="}
+        if isinstance(e, ast.Compare) and len(e.ops) == 1 and type(e.ops[0]) in ops:
+            return f"(decide ({num(e.left)} {ops[type(e.ops[0])]} {num(e.comparators[0])}))"
+        raise Untranslatable(f"unsupported condition {ast.unparse(e)}")
+
+    def val(e):
+        if ast.unparse(e) == "self.ERROR_COLUMN":
+            return "col"
+        if isinstance(e, ast.IfExp):
+            return f"(if {cond(e.test)} then {val(e.body)} else {val(e.orelse)})"
+        if isinstance(e, ast.Subscript) and isinstance(e.slice, ast.Slice) and e.slice.step is None:
+            lo = num(e.slice.lower) if e.slice.lower is not None else "0"
+            hi = num(e.slice.upper) if e.slice.upper is not None else f"({val(e.value)}).length"
+            return f"(pySliceL {val(e.value)} {lo} {hi})"
+        raise Untranslatable(f"unsupported string expression {ast.unparse(e)}")
+
+    out = f'def error_column : List Char := "{name}".toList\n\n'
+    out += f"/-- `{' '.join(ast.unparse(asg[0].value).split())}` -/\ndef error_column_trunc (col : List Char) : List Char :=\n  {val(asg[0].value)}\n"
+    # the stale columns dropped at the head of run_validation are exactly these two names
+    fns = [n for n in ast.walk(tree) if isinstance(n, ast.FunctionDef) and n.name == "run_validation"]
+    if len(fns) != 1:
+        raise Untranslatable("method run_validation not found")
+    loops = [n for n in ast.walk(fns[0]) if isinstance(n, ast.For) and ast.unparse(n.target) == "err_col"]
+    if len(loops) != 1 or ast.unparse(loops[0].iter) != "(self.ERROR_COLUMN, self.ERROR_COLUMN_TRUNC)":
+        raise Untranslatable("run_validation does not drop exactly (self.ERROR_COLUMN, self.ERROR_COLUMN_TRUNC) from the input")
+    out += "\n/-- the columns run_validation drops from its input before validating (shape-checked loop) -/\ndef stale_columns (col : List Char) : List (List Char) := [col, error_column_trunc col]\n"
+    return out
+
+
 def b_cli(S):
     tree = ast.parse(S[CLI])
 
@@ -2062,8 +2120,8 @@ ITEMS: List[Item] = [
     Item("CalcBins", AZIMUTH, ["C15"], b_calc_bins),
     Item("JunctionShift", GENERAL, ["C02", "C16"], b_junction_shift),
     Item("NodeJunctions", GENERAL, ["C02", "C10"], b_node_junctions, extra_modules=[TVALS]),
-    Item("IntersectionFilter", GENERAL, ["C02"], b_intersection_filter),
-    Item("GeneralNodes", GENERAL, ["C02"], b_general_nodes, deps=["IntersectionFilter"]),
+    Item("IntersectionFilter", GENERAL, ["C02", "C11"], b_intersection_filter),
+    Item("GeneralNodes", GENERAL, ["C02", "C11"], b_general_nodes, deps=["IntersectionFilter"]),
     Item("ValidatorTable", TVALS, ["C09", "C13", "C02"], b_validator_table, extra_modules=[TVAL]),
     Item("ValidateStep", TVAL, ["C09", "C13"], b_validate_step),
     Item("ValidationPass", TVAL, ["C09", "C13"], b_validation_pass),
@@ -2081,6 +2139,7 @@ ITEMS: List[Item] = [
     Item("GridSampling", GRID, ["C18"], b_grid_sampling),
     Item("IndexMargins", GENERAL, ["C16"], b_index_margins, extra_modules=[PROX]),
     Item("Cli", CLI, ["C19"], b_cli),
+    Item("ErrorColumn", TVAL, ["C19", "C13"], b_error_column),
     Item("DetermineIntersect", REL, ["C12"], b_determine_intersect),
     Item("IntersectsLoop", REL, ["C12"], b_intersects_loop),
     Item("RelationshipLoop", REL, ["C12"], b_relationship_loop, extra_modules=[GENERAL]),
